@@ -302,7 +302,67 @@ func checkC02(c *core.Ctx) error {
 	checkRegistries(c, pkg)
 	checkOwnGetters(c, pkg)
 	checkStablePrimitives(c, pkg)
+	checkNarrowReads(c, pkg)
 	return nil
+}
+
+// R9: no operation of a scalar type reads an operand through a getter that is narrower than the type's own
+// representation (a 64-bit type through GetFloat32/GetInt32/16/8, a 32-bit type through GetInt16/8): the value would be
+// rounded or truncated before the operation, so equal operands no longer give equal values "up to the precision of the
+// storage type".
+func checkNarrowReads(c *core.Ctx, pkg *packages.Package) {
+	c.Rule("C02.R9", "no operation reads an operand with a getter narrower than the receiver's own representation", 300)
+	info := pkg.TypesInfo
+	narrow := func(T string) map[string]bool {
+		switch T {
+		case "Float64", "Real64", "ConstFloat64", "Int64", "Int", "ConstInt64", "ConstInt":
+			return map[string]bool{"GetFloat32": true, "GetInt32": true, "GetInt16": true, "GetInt8": true}
+		case "Float32", "Real32", "ConstFloat32", "Int32", "ConstInt32":
+			return map[string]bool{"GetInt16": true, "GetInt8": true}
+		case "Int16", "ConstInt16":
+			return map[string]bool{"GetInt8": true}
+		}
+		return nil
+	}
+	isT := map[string]bool{}
+	for _, T := range allScalarTypes {
+		isT[T] = true
+	}
+	core.EachFunc(pkg, func(_ *ast.File, fd *ast.FuncDecl) {
+		if fd.Recv == nil {
+			return
+		}
+		T := core.RecvTypeName(fd)
+		if !isT[T] || narrow(T) == nil || strings.HasPrefix(fd.Name.Name, "Get") || strings.HasPrefix(fd.Name.Name, "Convert") || strings.Contains(fd.Name.Name, "JSON") {
+			return
+		}
+		bad := ""
+		var pos token.Pos
+		n := 0
+		ast.Inspect(fd.Body, func(x ast.Node) bool {
+			ce, ok := x.(*ast.CallExpr)
+			if !ok {
+				return true
+			}
+			fn := core.Callee(info, ce)
+			if fn == nil || fn.Type().(*types.Signature).Recv() == nil {
+				return true
+			}
+			if strings.HasPrefix(fn.Name(), "GetFloat") || strings.HasPrefix(fn.Name(), "GetInt") {
+				n++
+				if narrow(T)[fn.Name()] {
+					bad = fn.Name()
+					pos = ce.Pos()
+				}
+			}
+			return true
+		})
+		if n == 0 {
+			return
+		}
+		c.Check(bad == "", "C02.R9", "("+T+")."+fd.Name.Name, "operands read at full width", pos,
+			"reads an operand with "+bad+", which is narrower than the representation of "+T+": the operand is rounded or truncated before the operation")
+	})
 }
 
 // ---------------------------------------------------------------------------
